@@ -207,6 +207,11 @@ def long_history_probe(rep):
 
 
 IMPORT_STORIES = [
+    # a name bound again to a value that is equal to the old one but not the same (10 -> 10.0, a copy of a list)
+    (":: Start\n~ hp = 10\n~ party = ['ann']\n~ scouts = party\nCamp {hp}.\n+ [halve] -> Halve\n+ [scout] -> Scout\n\n"
+     ":: Halve\n~ hp = hp / 2 * 2\n~ flag = (hp == 10)\n~ flag = int(flag)\nHp {hp} {flag}.\n+ [back] -> Start2\n+ [scout] -> Scout\n\n"
+     ":: Scout\n~ scouts = list(scouts)\n~ scouts.append('bo')\nScouts {scouts} party {party}.\n+ [back] -> Start2\n+ [halve] -> Halve\n\n"
+     ":: Start2\nAgain {hp} {party} {scouts}.\n+ [halve] -> Halve\n+ [scout] -> Scout\n"),
     # stories whose import lines bind functions, classes and modules (their variables are beyond the value observer of the
     # play families): compared call by call through what the player sees and what a save holds
     ("from math import floor\nimport math\nfrom bardic.stdlib.dice import roll\nfrom bardic.stdlib.economy import Wallet\nimport bardic.stdlib.inventory as invmod\n"
